@@ -255,6 +255,7 @@ type opOut struct {
 	str          string // returned string (vector / get / nomen / rating)
 	rtEq, rtGets bool
 	rtVec        string
+	aliasIn      string // a result changed when the caller reused an input buffer
 	f            float64
 }
 
@@ -336,8 +337,19 @@ func callOp(a verAPI, op Op, obj unsafe.Pointer, lastErr error, out *opOut) {
 		for len(args) < len(fn.Params) {
 			args = append(args, "")
 		}
-		rs := fn.Call(obj, args)
+		rs, inputs := fn.Call(obj, args)
 		out.res = canonResults(rs, a)
+		if len(inputs) > 0 {
+			// the caller reuses its buffers: what it was handed must not change
+			for _, b := range inputs {
+				for i := range b {
+					b[i] = 'x'
+				}
+			}
+			if now := canonResults(rs, a); now != out.res {
+				out.aliasIn = fmt.Sprintf("%s returned %q; after the caller reused its input buffer the same values read %q", op.S, trunc(out.res), trunc(now))
+			}
+		}
 		if op.D == 1 {
 			scribble(rs) // the caller uses what it got as its own
 		}
@@ -489,6 +501,9 @@ func (x *runCtx) execOp(tc *taskCtx, opi int, op Op) {
 			tc.probes.StaleLongerHit++
 		}
 	}
+	if out.aliasIn != "" && x.armed("C14") {
+		x.violate(tc, "result-aliases-input", opi, "%s", out.aliasIn)
+	}
 	if out.panicked {
 		tc.probes.Panics++
 		if out.fault && page.contains(out.faultAddr) {
@@ -538,7 +553,7 @@ func (x *runCtx) execOp(tc *taskCtx, opi int, op Op) {
 	}
 
 	// O2(b): only Set may change its receiver
-	if c != nil && op.K != kSet && after != before {
+	if c != nil && op.K != kSet && op.K != kExtra && after != before {
 		if x.armed("C14") {
 			x.violate(tc, "receiver-modified", opi, "%s changed its v%d receiver from %s to %s", op.K, a.Ver(), hexs(before), hexs(after))
 		}
@@ -575,6 +590,16 @@ func (x *runCtx) execOp(tc *taskCtx, opi int, op Op) {
 					d.model = observe(d.api, d.p)
 					x.afterMutation(tc, opi, d, op.D, "parse")
 				}
+			}
+		}
+	case kExtra:
+		// an unknown method may legitimately change its receiver: re-observe
+		if c != nil && after != before {
+			c.nMut++
+			c.note("extra " + op.S)
+			if x.modelOn() {
+				c.model = observe(a, c.p)
+				x.afterMutation(tc, opi, c, op.C, "extra")
 			}
 		}
 	case kSet:
